@@ -666,6 +666,20 @@ pub fn all_mutations(ty: &str, out: &crate::spec::GenOut) -> Vec<FieldCase> {
                 v.push((format!("bad-amount-{n}"), t));
             }
         }
+        if l == "PartyId" {
+            // every form the shared helper documents (/1!a/34x, /2!a/34x, /34x), one character too long
+            let id35 = "ABCDEFGHIJKLMNOPQRSTUVWXYZ123456789";
+            for (n, d) in [
+                ("code1-id35", format!("/C/{id35}")),
+                ("code2-id35", format!("/CH/{id35}")),
+                ("digit-code-id35", format!("/1/{id35}")),
+                ("plain-37", format!("/{id35}XY")),
+            ] {
+                let mut t = text.clone();
+                t.replace_range(a..b, &d);
+                v.push((format!("bad-party-id-{n}"), t));
+            }
+        }
         if l == "Bic" {
             for (n, d) in [
                 ("len7", "ABCDEF1"),
